@@ -19,6 +19,9 @@ void notify_root (void) {
 	nsync_note_notify (root);
 	vf_assert (nsync_note_is_notified (root));
 }
+void setup_single (void) { root = nsync_note_new (0, nsync_time_no_deadline); vf_assume (root != 0); }
+void wait_root_timed_lean (void) { (void) nsync_note_wait (root, nsync_time_s_ns (5, 0)); }   /* C13 quick: a single note, only the memory-safety oracle */
+void notify_root_only (void) { nsync_note_notify (root); }
 void notify_child (void) {
 	nsync_note_notify (child);
 	vf_assert (nsync_note_is_notified (child));
@@ -37,8 +40,16 @@ void wait_grand (void) {
 	int r = nsync_note_wait (grand, nsync_time_no_deadline);
 	vf_assert (r != 0);
 }
+void wait_child_timed (void) {      /* C13: the wait may end by its deadline while the notifier is walking the waiter list */
+	long ds = (long) (vf_nondet () & 0xff);
+	int r = nsync_note_wait (child, nsync_time_s_ns (ds, 0));
+	if (r != 0) { vf_assert (nsync_note_is_notified (child)); }
+}
+void wait_child_timed_lean (void) { (void) nsync_note_wait (child, nsync_time_s_ns (5, 0)); }   /* C13 quick: only the memory-safety oracle */
 void free_child (void) { nsync_note_free (child); }
 void free_grand (void) { nsync_note_free (grand); }
+void free_root (void) { nsync_note_free (root); }
+void final_nothing (void) { }
 void new_under_root (void) {
 	nsync_note n = nsync_note_new (root, nsync_time_no_deadline);
 	vf_assume (n != 0);
